@@ -409,7 +409,29 @@ func runC07(c isoCase, st *hx.Stats) error {
 		st.NT(fmt.Sprintf("%s|%v|%d|%s", c.Route, c.PS3, c.PermSeed, treeKey(c.Tree)))
 	}
 	st.Sample(map[string]any{"route": c.Route, "ps3": c.PS3, "files": files, "dirs": dirs, "max_entries": maxEnt, "classes": ls})
+	var total int64
+	c.Tree.Walk(func(_ string, n *hx.Node) {
+		if n.Kind == "file" {
+			total += n.Size
+		}
+	})
+	// an image addresses its sectors with 32 bits (the implementation with 31): a tree near or beyond 4 TiB cannot be
+	// represented, and refusing it is then the correct outcome - a produced image must still be right
+	tooLarge := total > 1<<42-1<<36
+	if total > 1<<40 {
+		st.Label("tree > 1 TiB")
+	}
 	d, err := buildAndDecode(c, st)
+	if tooLarge {
+		if f, ok := err.(*hx.Fail); ok && f.Clause == "image-creation" {
+			st.Label("tree too large for an image: refused")
+			return nil
+		}
+		if err == nil && d == nil {
+			st.Label("tree too large for an image: refused")
+			return nil
+		}
+	}
 	if err != nil {
 		return err
 	}
@@ -453,6 +475,14 @@ func genC07Giant(t *rapid.T) isoCase {
 	}
 	if rapid.Bool().Draw(t, "subdir") {
 		root.Children = append(root.Children, hx.Dir("SUB", hx.File("TAIL.BIN", 3000, 5)))
+	}
+	// terabytes (sparse files make them cheap on real disks too): around 2^31 and 2^32 sectors, where the image's
+	// 32-bit sector numbers end. Beyond that an error is the right answer (runC07), never a wrong image or a crash.
+	if rapid.IntRange(0, 2).Draw(t, "tera") == 0 {
+		for i, nt := 0, rapid.IntRange(1, 3).Draw(t, "ntera"); i < nt; i++ {
+			sz := rapid.SampledFrom([]int64{1 << 40, 1<<41 + 7, 3 << 39, 1<<42 - 1<<37, 1<<42 - 4096, 1 << 42, 1<<42 + 2048, 5 << 40, 1<<43 - 2048, 1 << 43, 9 << 40, 17 << 40, 1 << 50}).Draw(t, fmt.Sprintf("t%d", i))
+			root.Children = append(root.Children, &hx.Node{Name: fmt.Sprintf("TERA%d.BIN", i), Kind: "file", Size: sz, Seed: uint64(950 + i), Sparse: true})
+		}
 	}
 	c := isoCase{Tree: root, PS3: rapid.IntRange(0, 3).Draw(t, "ps3") == 0, PermSeed: rapid.Uint64().Draw(t, "perm"), Route: "synth"}
 	if c.PS3 {
